@@ -454,8 +454,13 @@ class DiskCache(_CacheBase):
 
     def get(self, key: Hashable) -> Any:
         """Get a value from the cache by key."""
-        if self.with_lru_cache and key in self.lru_cache:
-            return self.lru_cache.get(key)
+        if self.with_lru_cache:
+            # One locked lookup, not `key in lru` followed by `lru.get(key)`: with a shared
+            # LRU another process may evict the key between the two, and `get` would
+            # answer None for a key whose file is on disk.
+            value = self.lru_cache.get(key)
+            if value is not None:
+                return value
 
         file_path = self._get_file_path(key)
         if file_path.exists():
